@@ -1,7 +1,7 @@
 """C19 - swarm actions run once per member with the right arguments and error report."""
 import ast
 
-from ..astutil import catches_everything, dotted, effective, method_call
+from ..astutil import callable_parts, catches_everything, dotted, effective, method_call
 from ..cfg import cfg_of, fact_key, norm, walk_own
 from ..mutate import B, M
 from ..symexec import paths_of
@@ -289,8 +289,8 @@ def check(ctx):
     if closes and rr:
         ctx.inst('R5', ol, 'close-before-reraise', closes[0].lineno < rr[-1].lineno, 'close_links() must run before the re-raise')
     lam = [c for c in walk_own(ol.node) if method_call(c, 'parallel_safe')]
-    okl = len(lam) == 1 and lam[0].args and isinstance(lam[0].args[0], ast.Lambda) and \
-        any(method_call(c, 'open_link') and norm(c.func.value) == lam[0].args[0].args.args[0].arg for c in ast.walk(lam[0].args[0].body))
+    cp = callable_parts(m.cls(SW, 'Swarm'), lam[0].args[0]) if len(lam) == 1 and lam[0].args else None      # a lambda or a small method of the class
+    okl = cp is not None and any(method_call(c, 'open_link') and norm(c.func.value) == cp[0] for b_ in cp[1] for c in ast.walk(b_))
     ctx.inst('R5', ol, 'opens-every-member', bool(okl), 'open_links must open every member through parallel_safe(lambda scf: scf.open_link())')
     cl = m.func(SW, 'Swarm.close_links')
     gc = cfg_of(cl)
